@@ -428,4 +428,27 @@ theorem prefix_sandwich {α : Type} (a e m : List α) (h1 : a <+: e) (h2 : e <+:
   exact ⟨t.length, hlen, by rw [List.prefix_iff_eq_take.mp this]; simp⟩
 
 
+/-- processing any prefix of the workload's chunk stream delivers a prefix of the workload -/
+theorem take_prefix_events (cs : List TxChan) (sid : UInt16) (ppid : UInt32) (hp : ppid.toNat ≠ dcPpidDcep)
+    (tc : TxChan) (hf : findTx cs sid = some tc) (ho : tc.ordered = true) (hmp : 0 < tc.maxPayload)
+    (msgs : List Bytes) (tsn0 : UInt32) (pl0 : Pl) (dc : Chan) (hfind : findChan pl0.chans sid = some dc)
+    (hord : dc.ordered = true) (hst : dc.state = 1) (hstr : getStream pl0.streams sid = ⟨tc.nextSsn, []⟩) (k : Nat) :
+    ∃ dc' j, findChan (plRun procDataP pl0 ((assignTsn tsn0 (sendAll cs sid ppid msgs).2).take k)).chans sid = some dc' ∧
+      j ≤ msgs.length ∧ dc'.events = dc.events ++ (msgs.take j).map ChanEv.msg := by
+  obtain ⟨dcF, hF, hFe⟩ := sendAll_run sid ppid hp msgs cs tc pl0 dc tsn0 hf ho hmp hfind hord hst hstr
+  obtain ⟨dck, hk1, hk2⟩ := plRun_mono ((assignTsn tsn0 (sendAll cs sid ppid msgs).2).take k) pl0 sid dc hfind
+  have hsplit : plRun procDataP pl0 (assignTsn tsn0 (sendAll cs sid ppid msgs).2) =
+      plRun procDataP (plRun procDataP pl0 ((assignTsn tsn0 (sendAll cs sid ppid msgs).2).take k))
+        ((assignTsn tsn0 (sendAll cs sid ppid msgs).2).drop k) := by
+    rw [← plRun_append, List.take_append_drop]
+  obtain ⟨dcF', hF1, hF2⟩ := plRun_mono ((assignTsn tsn0 (sendAll cs sid ppid msgs).2).drop k) _ sid dck hk1
+  have : dcF' = dcF := by
+    have := hF1
+    rw [← hsplit] at this
+    exact Option.some.inj (this.symm.trans hF)
+  subst this
+  rw [hFe] at hF2
+  obtain ⟨j, hj, hje⟩ := prefix_sandwich dc.events dck.events (msgs.map ChanEv.msg) hk2 hF2
+  exact ⟨dck, j, hk1, by simpa using hj, by rw [hje, List.map_take]⟩
+
 end RtcModel.Sctp
